@@ -10,7 +10,7 @@ GROUP = "g01"
 PROP_FILE = "C01.v"
 OWN_FILES = ("Tables.v", "Via.v", "ViaCheck.v", "ViaProofs.v", "Ob18.v", "ReqPipeline.v", "ReqCheck.v", "ReqE2E.v",
              "ReqProofs.v", "RouteProofs.v", "TransportTac.v", "TransportProofs.v", "TransportProofs2.v", "E2EProofs.v",
-             "Ob01.v", "C01.v")
+             "BodyStream.v", "Ob01.v", "C01.v")
 
 
 def parse_diag(text):
@@ -104,15 +104,17 @@ def _run(ctx):
     if meta:
         model_bad, prop_bad, res = u.eval_shards(ctx, meta, ob_failed,
                                                  {"scases": "scases.jsonl", "ccases": "ccases.jsonl",
-                                                  "xcases": "xcases.jsonl", "ycases": "ycases.jsonl"},
+                                                  "xcases": "xcases.jsonl", "ycases": "ycases.jsonl", "kcases": "kcases.jsonl"},
                                                  idents=("M", "P", "D"),
                                                  sizes={"scases": meta.get("shard_size", 150), "ccases": meta.get("shard_size", 150),
                                                         "xcases": (meta.get("e2e") or {}).get("shard_size", 100),
-                                                        "ycases": (meta.get("e2e") or {}).get("shard_size", 100)})
+                                                        "ycases": (meta.get("e2e") or {}).get("shard_size", 100),
+                                                        "kcases": (meta.get("e2e") or {}).get("shard_size", 100)})
     # failing components per case, computed by Coq (D)
     diag = {}
     sizes = {"scases": meta.get("shard_size", 150), "ccases": meta.get("shard_size", 150),
-             "xcases": (meta.get("e2e") or {}).get("shard_size", 100), "ycases": (meta.get("e2e") or {}).get("shard_size", 100)}
+             "xcases": (meta.get("e2e") or {}).get("shard_size", 100), "ycases": (meta.get("e2e") or {}).get("shard_size", 100),
+             "kcases": (meta.get("e2e") or {}).get("shard_size", 100)}
     for shard, r in res.items():
         if isinstance(r, dict) and r.get("D") and not shard.startswith("_"):
             kind, idx = shard.rsplit("_", 1)[0], int(shard.rsplit("_", 1)[1].split(".")[0])
@@ -133,7 +135,8 @@ def _run(ctx):
         return [k.replace("stack-", "configured-stack-", 1) for k in keys_stack(case, comps)]
 
     for kind, label, keyf in (("scases", "modifier-stack", keys_stack), ("ccases", "configured-modifier-stack", keys_cfg),
-                              ("xcases", "end-to-end", keys_e2e), ("ycases", "end-to-end (header rules + credentials)", keys_e2e)):
+                              ("xcases", "end-to-end", keys_e2e), ("ycases", "end-to-end (header rules + credentials)", keys_e2e),
+                              ("kcases", "connection-stream", lambda case, comps: ["e2e-connection-stream-bodies-differ"])):
         pb = [kc for kc in prop_bad if kc[0] == kind]
         mb = [kc for kc in model_bad if kc[0] == kind]
         groups = {}
@@ -164,7 +167,7 @@ def _run(ctx):
 
     e2e = meta.get("e2e") or {}
     evals = int(meta.get("stack_cases", 0)) + int(meta.get("configured_stack_cases", 0)) + int(e2e.get("exchanges", 0)) + \
-        int(e2e.get("configured_exchanges", 0))
+        int(e2e.get("configured_exchanges", 0)) + int(e2e.get("connection_streams", 0))
     ob_names, ob_done = u.table_obligations("Ob01.v", info)
     coverage = {
         "obligations": len(info["theorems"]) + len(ob_names),
